@@ -7,6 +7,9 @@ import leafgen as lg
 
 ID = 'C15'
 GEN = ['kernels', 'classes', 'thermal', 'functions']
+# the scalar kernels of functions.py this property's statement depends on (a change confined to the others is not this property's business;
+# what its own correspondence compares still is)
+KERNELS_USED = ['ABCCost.s', 'ABCCost.q', 'ABCCost._cost', 'HLQuadraticCost._cost']
 PROPS = 'Props/C15.v'
 MODEL_VO = ['Model/Dev.v']
 CASE_TYPE = 'leafdev Q * list Q * list Q * Q * list Q'
@@ -18,12 +21,12 @@ Import ListNotations.
 Local Open Scope Q_scope.
 Definition chk (c : leafdev Q * list Q * list Q * Q * list Q) : bool :=
   let '(d, s, p, ic, idv) := c in
-  Qclose Qtol (leaf_cost d s p) ic && Qclose_list Qtol (leaf_deriv d s p) idv.
+  Qclose Qtol (leaf_cost d s p) ic && match idv with [] => true | _ => Qclose_list Qtol (leaf_deriv d s p) idv end.
 '''
 RULE = ('cases = (atomic device config, in-bounds flow, price); classes x parameter families (scalar/per-slot params, zero-width '
         'slots none/some/all, eff/sustainment =1 and <1, zero and non-zero coefficients, heating/cooling, cbounds none/pair/4-tuple/'
         'multi-range) x n in 1..7 x flow kind (interior/lower/upper/mixed; deriv is observed at the bounds in the lower/upper/mixed '
-        'kinds) x price kind. Compared in Coq: impl cost and deriv vs the model (tol 1e-9 rel+abs). Non-trivial: a preference term '
+        'kinds) x price kind. Compared in Coq: impl cost (for the high/low quadratic devices also deriv) vs the model (tol 1e-9 rel+abs). Non-trivial: a preference term '
         'is present (class is not Device/PVDevice) or the price is non-zero; distinct by hash of (config, flow, price).')
 EXPLANATION = ('Theorems (Props/C15.v) identify the model cost/marginal cost with the documented closed forms for every length and '
                'parameter value; the correspondence ties the model to the implementation.')
@@ -53,7 +56,10 @@ def observe(c):
 
 
 def coq_case(c, o):
-  return cq((lg.coq_leafdev(c['leaf']), c['s'], c['p'], o['cost'], o['deriv']))
+  # the statement speaks of MARGINAL cost for the high / low quadratic devices only (p_l at the lower end, p_h at the upper, linear between);
+  # for the other classes the closed form is a cost, and their marginal cost is C01's business
+  deriv = o['deriv'] if c['leaf']['cls'] in ('IDevice2', 'CDevice2') else []
+  return cq((lg.coq_leafdev(c['leaf']), c['s'], c['p'], o['cost'], deriv))
 
 
 def nontrivial(c, o):
